@@ -3,6 +3,7 @@
 -/
 import GeonumModel.Lemmas.GeonumMag
 import GeonumModel.Lemmas.GradeAngle
+import GeonumModel.Lemmas.Exact
 
 set_option linter.unusedSectionVars false
 set_option linter.unusedVariables false
@@ -94,8 +95,67 @@ theorem invertCircle_centre_panics {c : Geonum F} (hm : Fin c.mag) (ha : c.angle
 
 end S
 
-/-! PARTIAL (E-tier, not yet proved): distance = ‖cart a − cart b‖ (hence symmetry, identity of indiscernibles, triangle
-    inequality, = |a − b|), and the inversion laws (same ray, |p'−c||p−c| = r², involution).  Explored by `oracle.C13.*`. -/
+/-! ### E-tier: exact arithmetic — the distance refines the Euclidean metric on the Cartesian points -/
+section E
+open GeonumModel.Exact
+
+/-- the Cartesian point of a geometric number, as a complex number -/
+noncomputable def cartC (g : Geonum ℝ) : ℂ := ⟨g.mag * Real.cos (T g.angle), g.mag * Real.sin (T g.angle)⟩
+
+/-- law of cosines for the Cartesian points -/
+theorem euclid_sq (a b : Geonum ℝ) :
+    ‖cartC a - cartC b‖ ^ 2 = a.mag ^ 2 + b.mag ^ 2 - 2 * a.mag * b.mag * Real.cos (T b.angle - T a.angle) := by
+  rw [Complex.sq_norm, Complex.normSq_apply]
+  simp only [cartC, Complex.sub_re, Complex.sub_im]
+  rw [Real.cos_sub]
+  have h1 := Real.sin_sq_add_cos_sq (T a.angle)
+  have h2 := Real.sin_sq_add_cos_sq (T b.angle)
+  nlinarith [h1, h2]
+
+/-- (E) the squared distance is `|a|² + |b|² − 2|a||b|cos(T b − T a + δ)` with the snap slack `δ`; the clamp at zero is inactive -/
+theorem distance_sq_real {a b : Geonum ℝ} (ha : a.angle.Inv) (hb : b.angle.Inv) :
+    ∃ δ : ℝ, |δ| < 1 / 10 ^ 10 + 1 / 10 ^ 15 ∧
+      (a.distanceTo b).mag ^ 2 = a.mag ^ 2 + b.mag ^ 2 - 2 * a.mag * b.mag * Real.cos (T b.angle - T a.angle + δ) := by
+  obtain ⟨δ, hδ, hcos, _⟩ := cos_sub_gradeAngle ha hb
+  refine ⟨δ, hδ, ?_⟩
+  rw [← hcos]
+  set c := Real.cos (b.angle.geometricSub a.angle).gradeAngle with hc
+  have hc1 : |c| ≤ 1 := Real.abs_cos_le_one _
+  set d2 : ℝ := a.mag * a.mag + b.mag * b.mag - 2 * a.mag * b.mag * c with hd2
+  have hd2nn : 0 ≤ d2 := by
+    rw [abs_le] at hc1
+    have h1 : 0 ≤ (a.mag - b.mag) ^ 2 := sq_nonneg _
+    have h2 : 0 ≤ (a.mag + b.mag) ^ 2 := sq_nonneg _
+    rcases le_total 0 (a.mag * b.mag) with hp | hp
+    · nlinarith [mul_le_mul_of_nonneg_left hc1.2 hp]
+    · nlinarith [mul_le_mul_of_nonpos_left hc1.1 hp]
+  have hmag : (a.distanceTo b).mag = |Real.sqrt (max d2 0)| := by
+    show |Real.sqrt (max (a.mag * a.mag + b.mag * b.mag - ((2 : ℕ) : ℝ) * a.mag * b.mag * c) ((0 : ℕ) : ℝ))| = _
+    rw [hd2]; push_cast; rfl
+  rw [hmag, sq_abs, max_eq_left hd2nn, Real.sq_sqrt hd2nn, hd2]; ring
+
+/-- (E) so the squared distance is the squared Euclidean distance of the Cartesian points to within `2|a||b|·(1e-10+1e-15)`;
+    the reference `‖cartC a − cartC b‖` is a genuine metric (symmetric, zero on identical points, triangle inequality) -/
+theorem distance_refines_euclid {a b : Geonum ℝ} (ha : a.angle.Inv) (hb : b.angle.Inv) (h0a : 0 ≤ a.mag) (h0b : 0 ≤ b.mag) :
+    |(a.distanceTo b).mag ^ 2 - ‖cartC a - cartC b‖ ^ 2| ≤ 2 * a.mag * b.mag * (1 / 10 ^ 10 + 1 / 10 ^ 15) := by
+  obtain ⟨δ, hδ, hd⟩ := distance_sq_real ha hb
+  rw [hd, euclid_sq]
+  have : a.mag ^ 2 + b.mag ^ 2 - 2 * a.mag * b.mag * Real.cos (T b.angle - T a.angle + δ)
+      - (a.mag ^ 2 + b.mag ^ 2 - 2 * a.mag * b.mag * Real.cos (T b.angle - T a.angle))
+      = -(2 * a.mag * b.mag) * (Real.cos (T b.angle - T a.angle + δ) - Real.cos (T b.angle - T a.angle)) := by ring
+  rw [this, abs_mul, abs_neg, abs_of_nonneg (by positivity)]
+  apply mul_le_mul_of_nonneg_left _ (by positivity)
+  exact le_trans (cos_lipschitz _ _) (le_of_lt hδ)
+
+theorem reference_metric (a b c : Geonum ℝ) :
+    ‖cartC a - cartC b‖ = ‖cartC b - cartC a‖ ∧ ‖cartC a - cartC a‖ = 0 ∧
+    ‖cartC a - cartC c‖ ≤ ‖cartC a - cartC b‖ + ‖cartC b - cartC c‖ :=
+  ⟨norm_sub_rev _ _, by simp, norm_sub_le_norm_sub_add_norm_sub _ _ _⟩
+
+end E
+
+/-! PARTIAL (not yet proved): distance = |a − b| (needs the Cartesian refinement of `+`), and the inversion laws (same ray,
+    |p'−c||p−c| = r², involution).  Explored by `oracle.C13.*`. -/
 
 example {F : Type} [FloatSpec F] : (⟨zero, 0⟩ : Angle F).Inv := inv_zero 0
 
